@@ -2,6 +2,7 @@
 //! fend code in-process (feature `verif-hooks`), prints one canonical answer per line.
 mod common;
 mod s_biguint;
+mod s_text;
 
 use std::io::{self, BufRead, Write};
 
@@ -11,6 +12,10 @@ fn main() {
     common::silence_panics();
     let f: fn(&str) -> String = match stream {
         "biguint" => s_biguint::line,
+        "json" => s_text::json_line,
+        "inline" => s_text::inline_line,
+        "evalseq" => s_text::evalseq_line,
+        "strlit" => s_text::strlit_line,
         _ => {
             eprintln!("usage: fend-verif-harness <stream>");
             std::process::exit(2);
